@@ -61,6 +61,14 @@ def jwk_thumbprint(jwk):
     return b64u(hashlib.sha256(canon.encode()).digest())
 
 
+def jwk_kind(jwk):
+    if not isinstance(jwk, dict):
+        return "?"
+    if jwk.get("kty") == "RSA":
+        return "RSA"
+    return jwk.get("crv", "?")
+
+
 def key_authorization(token, jwk):
     return token + "." + jwk_thumbprint(jwk)
 
@@ -209,6 +217,8 @@ class MockCA:
         rec = self.ev(**rec)   # the logged object itself: later annotations (sig_ok, ...) land in the log
         if self.o["delay_ms"]:
             time.sleep(self.o["delay_ms"] / 1000.0)
+        if jws is not None:
+            self.annotate(jws, rec, path, kind == "newAccount")
         rule = self.match_rule(kind, nth, gidx, rec)
         if rule is not None:
             ans = dict(rule["answer"])
@@ -282,44 +292,65 @@ class MockCA:
         return {"status": status, "ctype": "application/problem+json",
                 "body": {"type": ERR + typ, "detail": detail, "status": status}}
 
-    def check_post(self, jws, rec, path, want_jwk):
-        """Common POST validation of a conforming CA.  Returns (account_url|None, problem|None)."""
-        if jws is None:
-            return None, self.problem(400, "malformed", "not a JWS")
+    def annotate(self, jws, rec, path, want_jwk):
+        """What a conforming CA checks on a POST, recorded on the request whatever answer is served
+        (rules may override the answer): nonce ledger, url binding, signature under the key on record."""
+        if jws is None or rec.get("annotated"):
+            return
+        rec["annotated"] = True
         prot = jws["prot"]
         nonce = prot.get("nonce")
         with self.lock:
-            fresh = nonce in self.issued and nonce not in self.used
             rec["nonce_issued"] = nonce in self.issued
             rec["nonce_reused"] = nonce in self.used
             if nonce is not None:
                 self.used.append(nonce)
         rec["url_ok"] = prot.get("url") == self.url(path)
+        if want_jwk:
+            jwk = prot.get("jwk")
+            if jwk is not None:
+                ok, _ = self.verify(jws, jwk, prot.get("alg"))
+                rec["sig_ok"] = ok
+                rec["signer"] = "jwk"
+                rec["key_kind"] = jwk_kind(jwk)
+            return
+        kid = prot.get("kid")
+        rec["kid"] = kid
+        with self.lock:
+            acc = self.accounts.get(kid)
+        if acc is None:
+            return
+        rec["kid_ok"] = True
+        rec["account_forgotten"] = bool(acc.get("forgotten"))
+        ok, _ = self.verify(jws, acc["jwk"], prot.get("alg"))
+        rec["sig_ok"] = ok
+        rec["signer"] = "account-key-on-record"
+        rec["alg_on_record"] = acc["alg"]
+        rec["key_kind"] = jwk_kind(acc["jwk"])
+
+    def check_post(self, jws, rec, path, want_jwk):
+        """Common POST validation of a conforming CA.  Returns (account_url|None, problem|None)."""
+        if jws is None:
+            return None, self.problem(400, "malformed", "not a JWS")
+        self.annotate(jws, rec, path, want_jwk)
+        prot = jws["prot"]
+        fresh = rec.get("nonce_issued") and not rec.get("nonce_reused")
         if self.o["strict"] and not fresh:
             return None, self.problem(400, "badNonce", "bad nonce")
         if self.o["strict"] and not rec["url_ok"]:
             return None, self.problem(401, "unauthorized", "url mismatch")
         if want_jwk:
-            jwk = prot.get("jwk")
-            if jwk is None:
+            if prot.get("jwk") is None:
                 return None, self.problem(400, "malformed", "jwk required")
-            ok, _ = self.verify(jws, jwk, prot.get("alg"))
-            rec["sig_ok"] = ok
-            rec["signer"] = "jwk"
-            if self.o["strict"] and not ok:
+            if self.o["strict"] and not rec.get("sig_ok"):
                 return None, self.problem(401, "unauthorized", "bad signature")
             return None, None
         kid = prot.get("kid")
-        rec["kid"] = kid
         with self.lock:
             acc = self.accounts.get(kid)
         if acc is None or acc.get("forgotten"):
             return None, self.problem(400, "accountDoesNotExist", "unknown account")
-        ok, _ = self.verify(jws, acc["jwk"], prot.get("alg"))
-        rec["sig_ok"] = ok
-        rec["signer"] = "account-key-on-record"
-        rec["alg_on_record"] = acc["alg"]
-        if self.o["strict"] and not ok:
+        if self.o["strict"] and not rec.get("sig_ok"):
             return None, self.problem(401, "unauthorized", "signature does not verify under the key on record")
         return kid, None
 
@@ -345,6 +376,24 @@ class MockCA:
                 payload = json.loads(jws["payload_raw"].decode() or "{}")
             except Exception:
                 return self.problem(400, "malformed", "payload")
+            eab = payload.get("externalAccountBinding")
+            if isinstance(eab, dict):
+                try:
+                    eprot = json.loads(b64u_dec(eab["protected"]).decode())
+                    epay = json.loads(b64u_dec(eab["payload"]).decode())
+                    mac_key = (self.o.get("eab_keys") or {}).get(eprot.get("kid"))
+                    mac_ok = False
+                    if mac_key is not None:
+                        r = self.h.call({"op": "hmac", "alg": eprot.get("alg"), "key_hex": b64u_dec(mac_key).hex(),
+                                         "msg_hex": (eab["protected"] + "." + eab["payload"]).encode().hex()})
+                        mac_ok = r.get("mac_hex") == b64u_dec(eab["signature"]).hex()
+                    rec["eab"] = {"flat": sorted(eab.keys()) == ["payload", "protected", "signature"],
+                                  "hdr_members": sorted(eprot.keys()), "alg": eprot.get("alg"), "key_kind": "oct",
+                                  "url_ok": eprot.get("url") == self.url(path), "kid_ok": mac_key is not None,
+                                  "sig_ok": mac_ok, "sig_len": len(b64u_dec(eab["signature"])),
+                                  "payload_is_account_jwk": json.dumps(epay, sort_keys=True) == json.dumps(prot["jwk"], sort_keys=True)}
+                except Exception as ex:
+                    rec["eab"] = {"error": str(ex)}
             key_id = json.dumps(prot["jwk"], sort_keys=True)
             with self.lock:
                 url = self.by_thumb.get(key_id)
@@ -378,6 +427,10 @@ class MockCA:
             rec["inner_payload"] = ipay
             ok, _ = self.verify({"j": inner}, iprot.get("jwk"), iprot.get("alg"))
             rec["inner_sig_ok"] = ok
+            rec["inner"] = {"flat": sorted(inner.keys()) == ["payload", "protected", "signature"],
+                            "hdr_members": sorted(iprot.keys()), "alg": iprot.get("alg"),
+                            "key_kind": jwk_kind(iprot.get("jwk")), "url_ok": iprot.get("url") == self.url(path),
+                            "sig_ok": ok, "sig_len": len(b64u_dec(inner["signature"]))}
             with self.lock:
                 acc = self.accounts[kid]
                 old_ok = json.dumps(ipay.get("oldKey"), sort_keys=True) == json.dumps(acc["jwk"], sort_keys=True)
